@@ -53,7 +53,7 @@ Fixpoint find_succ (base : obs) (i : instr) (s : shape) (extra : nat) (o : obs) 
    still on the stack (a bundle's count gone), the capture of a capturing call begun *)
 Definition call_inter (i : instr) (s : shape) : option (shape * nat) :=   (* shape, surplus given up *)
   match call_arg i s with
-  | Some (cap, k) => Some (mkShape (frames s) (capn cap + caps s) (aes s) (V :: k),
+  | Some (cap, k) => Some (mkShape (frames s) (capn cap + caps s) (aes s) (V :: k) (ext s),
                            match i with ICall true => 1 | _ => 0 end)
   | None => None
   end.
